@@ -1,5 +1,5 @@
 """C07 -- link reference definitions: position-independent, first wins, case-folded."""
-from vfy.lemma import lemma, P
+from vfy.lemma import lemma, P, give_up
 from vfy.lemmas.common import S, SC, all_in, by, fixed, cp_in
 from mistletoe import core_tokens as ct, block_token as bt, token as tokmod
 
@@ -152,7 +152,9 @@ def r5_two_phases(p: int, dup: int) -> bool:
         span_token.tokenize_inner = orig
     if doc.footnotes != {'foo': ('/first', 'one')}:
         return False
-    if not seen or any(s != doc.footnotes for s in seen):
+    if not seen:
+        give_up('span_token.tokenize_inner was never called')
+    if any(s != doc.footnotes for s in seen):
         return False
     return (out.count('href="/first"') == 3 and out.count('src="/first"') == 1 and out.count('title="one"') == 4
             and '/second' not in out and '[foo]:' not in out and '[FOO]:' not in out)
